@@ -11,7 +11,7 @@ from ..defs_common import FAM, regen_or_report
 from ..defs_emit_common import (COQ_HEADER, DIFF_NAMES, F, build_corpus, closure_case, closure_files, closure_model_ok, coq_case,
                                 construct_classes, diagnose, names_of_model, observation, read_m, run_emit, source_classes)
 
-THEOREMS = ["C15_total", "C15_total_closure", "C15_total_ex", "C15_total_div_ex", "C15_scoped_py_partial", "C15_scoped_c_partial",
+THEOREMS = ["C15_total", "C15_total_closure", "C15_empty_file_ex", "C15_total_ex", "C15_total_div_ex", "C15_scoped_py_partial", "C15_scoped_c_partial",
             "C15_scoped_matlab_partial", "C15_scoped_js_partial", "C15_py_registers_every_message",
             "C15_scoped_refuted_alias_of_struct", "C15_scoped_refuted_struct_of_msg", "C15_js_alias_field_ok",
             "C15_matlab_header_only_when_defined", "C15_js_fresh", "C15_js_calls_disjoint", "C15_js_fresh_ex",
@@ -26,6 +26,7 @@ K_M_HDR = "matlab:message-header-without-coredefs"
 K_SCHAR = "internal:signed-char"
 K_ALIAS_FIELD = "internal:field-of-alias-of-struct"
 K_DIV_ZERO = "internal:ZeroDivisionError:constant-expression"
+K_EMPTY_FILE = "internal:AttributeError:empty-file"
 
 
 def extra_closures(natives: List[str]) -> List[dict]:
@@ -74,6 +75,18 @@ def extra_closures(natives: List[str]) -> List[dict]:
         ("struct", "S1", F(("a", "int8", ("ref", "N"))))])], auto_pad=True, import_coredefs=False), coq=False))
     out.append(dict(tag="expr-div-by-zero-length", cl=dict(files=[dict(path="root.yaml", imports=[], items=[
         ("const", "N", ("lit", 4)), ("struct", "S1", F(("a", "int8", ("raw", "N / 0"))))])], auto_pad=True, import_coredefs=False), coq=False))
+    # a file without any section (an empty YAML document, or comments only), imported or as the root: defines nothing
+    # (bebb1a6; it used to end in AttributeError - key internal:AttributeError:empty-file)
+    out.append(dict(tag="empty-imported-file", cl=dict(files=[
+        dict(path="root.yaml", imports=[1, 2], items=[("struct", "S1", F(("a", "S0", None)))]),
+        dict(path="inc/a.yaml", imports=[], items=[("struct", "S0", F(("q", "uint16", ("lit", 3))))]),
+        dict(path="inc/empty.yaml", imports=[], items=[])], auto_pad=True, import_coredefs=False), coq=True))
+    out.append(dict(tag="empty-root-file", cl=dict(files=[dict(path="root.yaml", imports=[], items=[])],
+                                                   auto_pad=True, import_coredefs=False), coq=True))
+    out.append(dict(tag="comments-only-imported-file", cl=dict(files=[
+        dict(path="root.yaml", imports=[1], items=[("msg", "M1", 5, F(("a", "int32", None)))]),
+        dict(path="notes.yaml", imports=[], items=[], text="# nothing defined here yet\n\n# message_defs:\n")],
+        auto_pad=True, import_coredefs=False), coq=True))
     out.append(dict(tag="constant-named-like-field", cl=dict(files=[dict(path="root.yaml", imports=[], items=[
         ("const", "count", ("lit", 3)), ("struct", "S1", F(("count", "int32", None), ("b", "int32", ("ref", "count")))),
         ("struct", "RTMA_MSG_HEADER", F(("msg_type", "int32", None)))])], auto_pad=True, import_coredefs=False), coq=False))
@@ -232,6 +245,10 @@ def run(chk: Check):
         replay = dict(files=closure_files(c["cl"]), root=c["cl"]["files"][0]["path"], auto_pad=c["cl"].get("auto_pad", True),
                       import_coredefs=c["cl"].get("import_coredefs", False), tag=c["tag"])
         obs = observation(res)
+        if c["tag"] in ("empty-imported-file", "empty-root-file", "comments-only-imported-file") and not res["ok"] \
+                and res["exc"] != "AttributeError":
+            # (an AttributeError is keyed below) - any other outcome than a clean parse is wrong as well
+            chk.spec_failure("empty-file:not-accepted", f"a closure with an empty definition file is not accepted: {res['exc']}: {res['msg'][:160]}", replay)
         if not res["ok"]:
             dist["rejected:" + str(res["exc"])] = dist.get("rejected:" + str(res["exc"]), 0) + 1
             if not res["is_parser_error"] and res["exc"] not in ("AssertionError", "FileNotFoundError"):
@@ -243,6 +260,8 @@ def run(chk: Check):
                     key = K_SCHAR
                 elif res["exc"] == "TypeError" and "must be a C type" in res["msg"] and _has_alias_struct_field(c["cl"]):
                     key = K_ALIAS_FIELD
+                elif res["exc"] == "AttributeError" and "'NoneType' object has no attribute" in res["msg"] and _has_empty_file(c["cl"]):
+                    key = K_EMPTY_FILE
                 elif res["exc"] == "ZeroDivisionError" and _divides_by_zero(c["cl"]):
                     key = K_DIV_ZERO
                 else:
@@ -306,6 +325,11 @@ def run(chk: Check):
                                   f"case tag={c['tag']} files={json.dumps(closure_files(c['cl']))[:500]}")
         if any(b < 0 for b in bad):
             chk.broken_obligation("correspondence shard failed to evaluate", log[-600:])
+
+
+def _has_empty_file(cl: dict) -> bool:
+    """a file of the closure without any section (no imports, no items): an empty YAML document"""
+    return any(not f.get("missing") and not f.get("imports") and not f["items"] for f in cl["files"])
 
 
 def _divides_by_zero(cl: dict) -> bool:
